@@ -284,6 +284,20 @@ fn ensure_inner_pool<'a, T: Send + 'static>(
     })
 }
 
+#[cfg(folo_verif)]
+impl BlindPool {
+    /// Verification hook: read-only snapshots of every inner pool, in layout key order.
+    #[must_use]
+    pub fn verif_probe(&self) -> Vec<crate::verif::PoolProbe> {
+        self.core
+            .lock()
+            .expect(NEVER_POISONED)
+            .values()
+            .map(|pool| pool.verif_probe())
+            .collect()
+    }
+}
+
 #[cfg(test)]
 #[cfg_attr(coverage_nightly, coverage(off))]
 mod tests {
